@@ -1,6 +1,7 @@
 (* C05 - time association. Property theorems only; proofs live in Evo.SyncProofs. *)
 From Coq Require Import Reals List Sorted.
-From Evo Require Import Num Sync SyncProofs.
+From Evo Require Import Num Sync SyncProofs NpDsl SyncTie.
+From EvoGen Require Import SyncGen.
 Import ListNotations.
 Local Open Scope R_scope.
 
@@ -102,3 +103,20 @@ Theorem C05_old_code_used_a_pose_twice :
   matching OldWitness.w_s1 OldWitness.w_s2 OldWitness.w_maxd OldWitness.w_off = [(0, 0)]%nat.
 Proof. exact (conj OldWitness.matching_old_uses_pose_twice OldWitness.matching_new_on_witness). Qed.
 Print Assumptions C05_old_code_used_a_pose_twice.
+
+(* ---- translator tie: matching_time_indices_gen is re-translated from evo/core/sync.py on every run ---- *)
+(* the translated source returns exactly the two index lists of the model *)
+Theorem C05_translated_source_is_the_model : forall (s1 s2 : list R) (maxd off : R),
+  matching_time_indices_gen s1 s2 maxd off = (map fst (matching s1 s2 maxd off), map snd (matching s1 s2 maxd off)).
+Proof. exact matching_time_indices_gen_is_model. Qed.
+Print Assumptions C05_translated_source_is_the_model.
+(* its loop (array arithmetic, argmin, dict updates) is the model's loop for every number system, binary64 included *)
+Theorem C05_translated_loop_is_the_model_loop : forall (T : Type) (ops : NumOps T) (s2 : list T) (off maxd : T) (b : list (nat * (T * nat))) (i1 : nat) (x : T),
+  (let diffs := np_abs_list (np_sub_scalar (np_add_scalar s2 off) x) in
+   let index_2 := np_argmin diffs in
+   if (nleb (np_item diffs index_2) maxd) &&
+      (negb (py_dict_mem index_2 b) || (nltb (np_item diffs index_2) (fst (py_dict_get (n0, 0%nat) index_2 b))))
+   then py_dict_set index_2 (np_item diffs index_2, i1) b else b)%bool
+  = upd b i1 (cand s2 off maxd x).
+Proof. exact (@body_eq). Qed.
+Print Assumptions C05_translated_loop_is_the_model_loop.
